@@ -581,6 +581,12 @@ class Run:
             if documented_refusal(cfg, v) and isinstance(e, ValueError):
                 acc.count("documented_refusals")
                 return None
+            if v["ref"] == "vec" and cfg[1] in ("pUCCD", "QMF", "QCC", "ILC"):
+                # An occupation-vector reference state is refused loudly at build time for these ansaetze (no HCB branch
+                # in get_mapped_vector; "zero" reference / Bloch angles for QMF-type ansaetze). The statement is about the
+                # energies a solver reports, not about which option combinations can be built: counted, not reported.
+                acc.count(f"loud_refusal_at_build[ref=vec,{cfg[1]}]")
+                return None
             acc.ev()
             nondef = ",".join(k for k in ("ref", "pen", "proj") if v[k] not in ("none", False))
             mp = cfg[2] if cfg[1] != "pUCCD" else "HCB"
@@ -763,6 +769,11 @@ class Run:
                 try:
                     ed = quiet(solver.energy_estimation, list(theta))
                 except Exception as e:
+                    if v["proj"] and isinstance(e, AttributeError) and "not an invertible gate" in repr(e):
+                        # deflation needs the inverse of the state-preparation circuit; with a projective (MEASURE) circuit
+                        # the combination is refused loudly. Counted, not reported.
+                        acc.count("loud_refusal[deflation+projective-circuit]")
+                        continue
                     acc.ev()
                     sig = "with-projective-circuit" if v["proj"] else f"no-projective,{sigkey(cfg, v)}"
                     self.bad("energy_estimation(deflation)", f"exception-{exc_sig(e)}", sig, dcase,
